@@ -21,6 +21,8 @@ fn df_variant_name(f: &adsb_deku::Frame) -> &'static str {
         CommBAltitudeReply { .. } => "CommBAltitudeReply",
         CommBIdentityReply { .. } => "CommBIdentityReply",
         ModeSExtendedSquitter { .. } => "ModeSExtendedSquitter",
+        #[allow(unreachable_patterns)]
+        _ => "<new variant>",
     }
 }
 
